@@ -509,6 +509,7 @@ class UnionMetaType(StructureMetaType):
             offset = 0
             buf = io.BytesIO(stream.read(cls.size))
 
+        end = offset
         for field in cls.__fields__:
             field_type = cls.cs.resolve(field.type)
 
@@ -521,6 +522,11 @@ class UnionMetaType(StructureMetaType):
 
             sizes[field._name] = buf.tell() - offset - start
             result[field._name] = value
+            end = max(end, buf.tell())
+
+        if cls.size is None:
+            # The members of a union overlay each other, it extends to the end of the one that reaches furthest
+            buf.seek(end)
 
         return result, sizes
 
